@@ -39,4 +39,21 @@ Definition full_chunks (l : bytes) : list bytes := chunks_fuel (length l) l.
 (* what is left after them (shorter than 188) *)
 Definition tail (l : bytes) : bytes := skipn (PacketSize * length (full_chunks l)) l.
 
+(* ---- C18: what a read script means, independent of how it is consumed ----
+   a script is a list of Read results (chunk, optional error); the reader delivers the chunks in
+   order up to and including the first one that carries an error, then fails with that error for
+   ever; a script without error ends with io.EOF. *)
+Fixpoint script_data (s : list (bytes * option N)) : bytes :=
+  match s with
+  | [] => []
+  | (c, None) :: s' => c ++ script_data s'
+  | (c, Some _) :: _ => c
+  end.
+Fixpoint script_err (s : list (bytes * option N)) : N :=
+  match s with
+  | [] => E.EOF
+  | (_, None) :: s' => script_err s'
+  | (_, Some e) :: _ => e
+  end.
+
 End IOSpec.
